@@ -378,3 +378,80 @@ oracle_proof!(c14_path_b2, 24, path_two_points(2, "B|$a:$b|$c:$d"));
 oracle_proof!(c14_path_l2, 24, path_two_points(3, "L|$a:$b|$c:$d"));
 // @verif property=C14,C06 tier=thorough timeout=1500 mem=20 bounds="convert_path_str on 'C|$a:$b|$c:$d'" covers=2
 oracle_proof!(c14_path_c2, 24, path_two_points(1, "C|$a:$b|$c:$d"));
+
+// ------------------------------------------------------------------------------------------
+// full slider line with a CONCRETE path string and repeat count (symbolic path coordinates or
+// repeat counts make the control-point / node vectors' lengths symbolic: out of memory)
+// ------------------------------------------------------------------------------------------
+
+/// `x,y,time,2,0,B|100:100|200:200,2,$g`: slider flag, hit sound 0, two repeats, pixel length $g.
+fn slider_line_concrete_path() {
+    let mut st = HitObjectsState::create(14);
+    let (last, last_v) = any_last_object();
+    st.last_object = last;
+    let x = accept_f32_limit(stubs::seed_f32(b'a'), 131072.0);
+    let y = accept_f32_limit(stubs::seed_f32(b'b'), 131072.0);
+    let time = accept_f64(stubs::seed_f64(b'c'));
+    let len = accept_f64_limit(stubs::seed_f64(b'g'), 131072.0);
+    let res = HitObjects::parse_hit_objects(&mut st, tok_line("$a,$b,$c,2,0,B|100:100|200:200,2,$g"));
+    let ok = x.is_some() && y.is_some() && time.is_some() && len.is_some();
+    assert!(res.is_ok() == ok, "acceptance differs from the legacy grammar");
+    if !ok {
+        assert!(st.hit_objects.is_empty() && st.curve_points.is_empty());
+        assert!(st.last_object.map(i32::from) == last.map(i32::from));
+        kani::cover!(x.is_some() && y.is_some() && time.is_some(), "rejected at the very last field");
+        core::mem::forget(st);
+        return;
+    }
+    let (px, py) = (trunc(x.unwrap()), trunc(y.unwrap()));
+    // this harness: the path's points do not coincide with the slider head or each other
+    kani::assume(!(px == 100.0 && py == 100.0));
+    assert!(st.hit_objects.len() == 1 && st.curve_points.is_empty());
+    let h = &st.hit_objects[0];
+    assert!(h.start_time.to_bits() == time.unwrap().to_bits());
+    match &h.kind {
+        HitObjectKind::Slider(s) => {
+            assert!(s.pos.x == px && s.pos.y == py);
+            let first = last.is_none();
+            let after_spinner = last_v.map_or(false, |v| v & SPINNER != 0);
+            assert!(s.new_combo == (first || after_spinner) && s.combo_offset == 0);
+            // "2" repeats in the file = one repeat after the first span; nodes = repeats + 2
+            assert!(s.repeat_count == 1 && s.node_samples.len() == 3);
+            assert!(s.velocity == 1.0);
+            // an absent, zero or negative length means natural length
+            let l = len.unwrap();
+            let want = if l > 0.0 && l >= f64::EPSILON { Some(l) } else { None };
+            assert!(s.path.expected_dist().map(f64::to_bits) == want.map(f64::to_bits), "requested length differs from the legacy rule");
+            let cp = s.path.control_points();
+            assert!(cp.len() == 3);
+            assert!(cp[0].pos.x == 0.0 && cp[0].pos.y == 0.0 && kind_code(&cp[0]) == 2);
+            assert!(cp[1].pos.x == 100.0 - px && cp[1].pos.y == 100.0 - py && kind_code(&cp[1]) == 0);
+            assert!(cp[2].pos.x == 200.0 - px && cp[2].pos.y == 200.0 - py && kind_code(&cp[2]) == 0);
+            kani::cover!(want.is_none(), "non-positive length: natural length");
+            kani::cover!(want.is_some(), "requested length kept");
+        }
+        _ => panic!("slider flag without circle flag must give a slider"),
+    }
+    assert!(st.last_object.map(i32::from) == Some(SLIDER));
+    core::mem::forget(st);
+}
+
+// @verif property=C14,C01 tier=thorough timeout=3400 mem=32 bounds="slider line '$a,$b,$c,2,0,B|100:100|200:200,2,$g': CONCRETE path and repeat count; x,y every f32 / error, time, length every f64 / error; arbitrary predecessor"
+oracle_proof!(c14_slider_concrete_path, 48, slider_line_concrete_path());
+
+/// A multi-segment path whose SECOND segment fails after the first was converted: nothing of
+/// the rejected path may stay behind (C06: "corruption deep inside a multi-segment slider path").
+fn path_second_segment_fails() {
+    let mut st = HitObjectsState::create(14);
+    let ox = kani::any::<i16>() as f32;
+    let oy = kani::any::<i16>() as f32;
+    let res = ho_hooks::convert_path_str(&mut st, "B|10:10|20:20|L|30:30|x:40", Pos::new(ox, oy));
+    assert!(res.is_err(), "a path with an unparsable coordinate must be rejected");
+    assert!(ho_hooks::point_split_len(&st) == 0);
+    assert!(st.curve_points.is_empty(), "a rejected path left control points behind");
+    kani::cover!(true, "rejected");
+    core::mem::forget(st);
+}
+
+// @verif property=EXP tier=quick timeout=1800 mem=24 bounds="convert_path_str on the CONCRETE two-segment string 'B|10:10|20:20|L|30:30|x:40' (bad coordinate in the second segment), symbolic offset"
+oracle_proof!(c14_path_second_segment_fails, 48, path_second_segment_fails());
